@@ -37,6 +37,7 @@ var extModels = map[string]extModel{
 	"math/bits.Len32":             {special: "bitlen32"},
 	"math/bits.Len16":             {special: "bitlen16"},
 	"math/bits.Len8":              {special: "bitlen8"},
+	"encoding/binary.PutUvarint":  {preLen: 10, preArg: 0, special: "putuvarint"},
 	"bytes.Clone":                 {special: "clone"},
 	"slices.Clone":                {special: "clone"},
 	"bytes.Index":                 {special: "index"},
@@ -268,6 +269,14 @@ func (it *interp) execCall(s *state, f frameID, fn *ssa.Function, x *ssa.Call) *
 					r := it.valAtom(f, x)
 					d.addFact(lin.GE(r, lin.Const(0)))
 					d.addFact(lin.LE(r, lin.Const(w)))
+					return rep{kind: kInt, lin: r}
+				})
+			case "putuvarint":
+				// writes 1..10 octets (MaxVarintLen64) at the start of the buffer, whose length >= 10 is the obligation above
+				set(func(d *disjunct) rep {
+					r := it.valAtom(f, x)
+					d.addFact(lin.GE(r, lin.Const(1)))
+					d.addFact(lin.LE(r, lin.Const(10)))
 					return rep{kind: kInt, lin: r}
 				})
 			case "clone":
